@@ -5,6 +5,11 @@ import json, subprocess
 HOOK_COMMITS = ["e830588", "a6f2056", "d667224"]
 
 CHECKS = {
+ "C03": dict(
+  technique="runtime oracle: reference-model monitor on the packet path (model-generated segments, exhaustive per-field sweeps + seeded random headers), deviation models for listed known findings",
+  text="Exploration: ~8e6 (quick) / ~4.7e7 (thorough) generated IPv4/IPv6 segments in Ethernet, raw-IP and loopback framing are analysed by HuginnNetTcp through its private per-packet path and every reported field, the role, the MTU and the link label are compared with a reference computed from the generating model. Component domains named by the property are enumerated completely (all flag bytes, TTLs, header-bit combinations, all 65536 windows per MSS/timestamp/IP-version choice, all option sequences of up to 4 options, every (kind,length) single option). Held = every execution either matched the reference or matched exactly one of the four listed known-finding deviations.",
+  note="Reference model is the harness' tcpref.rs (restates the crate's documented window/TTL rules and the p0f quirk table); trusts the byte-level packet builder; judged domain restrictions are listed in the evidence assumptions.",
+  design="6 C03"),
  "C14": dict(
   technique="runtime oracle: reference-model monitor over product-enumerated and seeded-random filter configurations (differential against an independent boolean function)",
   text="Exploration: every combination of the listed port/address/subnet sub-filter variants in both modes is built through the public builder API of all four FilterConfig exports and evaluated at crossed boundary ports and addresses (quick ~2e8 judged decisions, thorough all pairs), then seeded random configurations probed at their own constants +-1. Held = no decision differed from the documented rule on the explored points.",
